@@ -9,6 +9,7 @@ import (
 	"github.com/pion/rtcp"
 	"github.com/pion/rtp"
 
+	"github.com/pion/interceptor/internal/ntp"
 	vr "github.com/pion/interceptor/internal/verifrt"
 )
 
@@ -147,5 +148,48 @@ func HC19Recount() {
 	vr.Assert(in.NACKCount == outNack && in.PLICount == outPli && in.FIRCount == outFir, "outgoing NACK/PLI/FIR addressed to this SSRC counted")
 	if haveRemote {
 		vr.Assert(st.RemoteInboundRTPStreamStats.PacketsLost == remoteLost && st.RemoteInboundRTPStreamStats.FractionLost == float64(remoteFrac)/256.0, "remote loss figures from the most recent report block addressed to this SSRC")
+	}
+}
+
+// HC19RTT: round-trip time from LSR/DLSR: an outgoing sender report is remembered; an incoming
+// receiver report whose last-SR field matches it yields RTT = arrival - DLSR - (send time of that SR);
+// a report that matches no remembered SR changes nothing.
+func HC19RTT() {
+	r := newRecorder(100, 90000, logging.NewDefaultLoggerFactory())
+	st := internalStats{}
+	// several sender reports; the matching one is the k-th newest (only the 5 newest are remembered)
+	nsr := vr.Param("srs", 3)
+	var ntps [8]uint64
+	for i := 0; i < nsr; i++ {
+		ntps[i] = uint64(0xE0000000+uint32(i)*7)<<32 | uint64(vr.NondetU32())
+		st = r.recordOutgoingRTCP(st, &outgoingRTCP{ts: c19epoch, pkts: []rtcp.Packet{&rtcp.SenderReport{SSRC: 100, NTPTime: ntps[i]}}})
+	}
+	k := vr.Concretize(vr.NondetInt(0, nsr))
+	delay := uint32(vr.Param("dbase", 1)) + uint32(vr.NondetInt(0, 1<<uint(vr.Param("dbits", 16))-1)) // window of 2^dbits DLSR values
+	el := time.Duration(vr.NondetInt(0, 1<<30))
+	var lsr uint32
+	if k < nsr {
+		lsr = uint32(ntps[k] >> 16)
+	} else {
+		lsr = 0x12345678 // matches none
+	}
+	vr.Assume(lsr != 0)
+	var sent time.Time
+	if k < nsr {
+		sent = ntp.ToTime(ntps[k])
+	}
+	ts := c19epoch.Add(el)
+	rr := &rtcp.ReceiverReport{SSRC: 1, Reports: []rtcp.ReceptionReport{{SSRC: 100, LastSenderReport: lsr, Delay: delay}}}
+	st = r.recordIncomingRTCP(st, &incomingRTCP{ts: ts, pkts: []rtcp.Packet{rr}})
+	ri := st.RemoteInboundRTPStreamStats
+	if k < nsr {
+		vr.Cover("matching sender report")
+		dlsr := time.Duration(uint64(delay) * 1953125 / 128) // delay/65536 s in ns, exact
+		vr.Assert(ri.RoundTripTimeMeasurements == 1, "one measurement")
+		vr.Assert(ri.RoundTripTime == ts.Add(-dlsr).Sub(sent), "RTT = arrival - DLSR - send time of the matching sender report")
+		vr.Assert(ri.TotalRoundTripTime == ri.RoundTripTime, "total accumulates")
+	} else {
+		vr.Cover("no matching sender report")
+		vr.Assert(ri.RoundTripTimeMeasurements == 0 && ri.RoundTripTime == 0, "no matching sender report: no measurement")
 	}
 }
